@@ -17,6 +17,13 @@ variable {P : Params} {s s' t : State} {e : Event}
 again once it holds `mutex_` (Gen item `bfRecheck`, extracted by tools/items/TIter.py on every run) -/
 theorem C09_fix_present : bfRecheck = true := rfl
 
+/-- the second repair (fixes/C09-2.diff) is present: the producer's catch block no longer asserts
+`producer_sig_ != kDestroy`.  In builds where DCHECK is live (DMLC_LOG_DEBUG == 0) the pinned code throws that
+assertion out of the thread function -- std::terminate -- when a failure races with Destroy (finding C09-F2;
+the harness runs those schedules on a DCHECK-live instantiation of the header).  Without the statement the
+catch block performs exactly the transitions `catchRec`, `catchLock`, `notifyExit` of the model in every build. -/
+theorem C09_fix2_present : catchDcheck = false := rfl
+
 /-- what the consumers have received is an in-order prefix of what was produced (successfully) in this pass;
 the failing call itself contributes nothing -/
 theorem C09_prefix (h : Reachable P s) :
